@@ -17,8 +17,10 @@ import traceback
 from typing import Any, Dict, List, Optional
 
 ROOT = os.path.dirname(os.path.dirname(os.path.abspath(__file__)))
-EVIDENCE_DIR = os.path.join(ROOT, "evidence")
-REPLAY_DIR = os.path.join(ROOT, "replays")
+REPO = os.environ.get("VERIF_REPO", "/repo")
+_OUT = os.environ.get("VERIF_OUT", ROOT)
+EVIDENCE_DIR = os.path.join(_OUT, "evidence")
+REPLAY_DIR = os.path.join(_OUT, "replays")
 KNOWN = os.path.join(ROOT, "known_findings.json")
 
 PROVED = "proved"  # unsat of (domain & path & not claim)
@@ -211,7 +213,7 @@ class Report:
             "paths": self.paths,
             "functions_encoded": self.functions,
             "bounds": self.bounds,
-            "stubs": self.stubs,
+            "stubs": self.stubs + ([] if self.pid in ("C13", "C14") else _engine_s("ENGINE_S_STUBS", self.stubs)),
             "trusted_base": self.trusted,
             "known_findings_hit": known_hit,
             "second_solver_cvc5": {"sampled_proved_obligations": sum(self.diff.values()), "results": self.diff, "solver_s": round(self.diff_s, 2),
@@ -232,7 +234,7 @@ class Report:
             "seed": self.seed,
             "level": self.level,
             "coverage": cov,
-            "assumptions": self.assumptions + self.notes,
+            "assumptions": self.assumptions + self.notes + ([] if self.pid in ("C13", "C14") else _engine_s("ENGINE_S_ASSUMPTIONS", self.assumptions)),
             "wall_s": round(time.time() - self.t0, 2),
             "violations": n_viol,
         }
@@ -243,6 +245,15 @@ class Report:
         os.replace(tmp, os.path.join(EVIDENCE_DIR, f"{self.pid}.json"))
 
 
+def _engine_s(name: str, have: List[str]) -> List[str]:
+    """engine S's interception points / modelling assumptions (one shared list, defined next to the code that implements them)"""
+    try:
+        from .sym import tensor as T
+        return [x for x in getattr(T, name) if x not in have]
+    except Exception:
+        return []
+
+
 def describe_function(fn: Any) -> str:
     """file:first-last line of a live code object (evidence: which code was encoded)."""
     import inspect
@@ -251,7 +262,7 @@ def describe_function(fn: Any) -> str:
         fn = inspect.unwrap(fn)
         src, start = inspect.getsourcelines(fn)
         f = inspect.getsourcefile(fn) or "?"
-        return f"{os.path.relpath(f, '/repo')}:{start}-{start + len(src) - 1}:{getattr(fn, '__qualname__', fn)}"
+        return f"{os.path.relpath(f, REPO)}:{start}-{start + len(src) - 1}:{getattr(fn, '__qualname__', fn)}"
     except Exception:
         return repr(fn)
 
